@@ -66,6 +66,9 @@ struct Shm {
   uint32_t stale_reads;
   uint32_t n_labels;
   char labels[MAX_LABELS][40];
+  uint32_t n_counters;
+  char counter_names[16][40];
+  uint64_t counters[16];
   uint32_t desc_len;
   char desc[MAX_DESC];
   Traces out;
